@@ -272,9 +272,17 @@ class PitchKeys(PartialEvent):
         ret = ret * (12.0 * bi.log2(self('scale').tuning.octave_ratio)) + 60
         return ret
 
+    def _degree_to_key(self):
+        # As SimpleNumber.degreeToKey: the fractional part times ten is the
+        # accidental (2.1 is the second degree raised by one step).
+        degree = self('degree') + self('mtranspose')
+        scale_degree = int((degree + 0.5) // 1)
+        acc = (degree - scale_degree) * 10.0
+        return self('scale').degree_to_key(scale_degree, acc)
+
     def _midinote_from_degree(self):
         scale = self('scale')
-        ret = scale.degree_to_key(self('degree') + self('mtranspose'))
+        ret = self._degree_to_key()
         ret = ret + self('gtranspose') + self('root')
         ret = ret / scale.tuning.spo + self('octave') - 5.0
         ret = ret * (12.0 * bi.log2(scale.tuning.octave_ratio)) + 60
@@ -288,7 +296,7 @@ class PitchKeys(PartialEvent):
         # When set, this key doesn't call degree_to_key when converting to
         # midinote so it can be done externally, yet this is not the best
         # path for combinations and naming/meaning gets confusing.
-        return self('scale').degree_to_key(self('degree') + self('mtranspose'))
+        return self._degree_to_key()
 
     @keyfunction
     def degree(self):
